@@ -172,6 +172,42 @@ theorem restC_of_rest {tcs : List (TCpt K)} {x : Ix → Signal K} (h : RestWhere
 
 end transform
 
+/-! ### hand-over of the state: explicit initial conditions taken from the pre-history = no initial conditions -/
+
+section handover
+variable {K : Type} [Field K]
+
+theorem vpre0_of_startsFrom {X : Ix → K} {x : Ix → Signal K} (h : StartsFrom X x) (a b : Nat) :
+    vpre0 x a b = vd X a b := by
+  have hv : ∀ k, pre0 (voltT x k).pre = volt X k := by
+    intro k
+    cases k with
+    | zero => simp [voltT, Signal.zero, pre0, volt]
+    | succ k => simp [voltT, volt, h _]
+  simp [vpre0, vd, hv]
+
+theorem mutualDropT_handover {X : Ix → K} {x : Ix → Signal K} (h : StartsFrom X x) (coup : List (Nat × K × Option K)) :
+    mutualDropT x (coup.map (fun p => (p.1, p.2.1, some (X (.br p.1)))))
+      = mutualDropT x (coup.map (fun p => (p.1, p.2.1, none))) := by
+  induction coup with
+  | nil => rfl
+  | cons p coup ih =>
+    simp only [mutualDropT, List.map_cons, List.flatMap_cons] at ih ⊢
+    rw [ih]
+    simp [stateOf, h _]
+
+theorem outflowT_handover {X : Ix → K} {x : Ix → Signal K} (h : StartsFrom X x) (k : Nat) (c : Cpt K) (w : Signal K) :
+    outflowT x k (initializeFrom X c, w) = outflowT x k (clearIC c, w) := by
+  cases c <;> simp only [initializeFrom, clearIC, outflowT]
+  case Cap n1 n2 cc v0 => simp [capCurrentT, stateOf, vpre0_of_startsFrom h]
+
+theorem lawsT_handover {X : Ix → K} {x : Ix → Signal K} (h : StartsFrom X x) (c : Cpt K) (w : Signal K) :
+    lawsT x (initializeFrom X c, w) = lawsT x (clearIC c, w) := by
+  cases c <;> simp only [initializeFrom, clearIC, lawsT]
+  case Ind n1 n2 m l i0 coup => simp [stateOf, h _, mutualDropT_handover h]
+
+end handover
+
 /-! ### the normal form -/
 
 section normal
